@@ -257,54 +257,48 @@ fn dkim_canonicalize_body(
 
 fn dkim_canonicalize_headers_relaxed(headers: &str) -> String {
     let mut r = String::with_capacity(headers.len());
+    let mut h = headers;
 
-    fn skip_whitespace(h: &str) -> &str {
-        match h.as_bytes().first() {
-            Some(b' ' | b'\t') => skip_whitespace(&h[1..]),
-            _ => h,
-        }
-    }
-
-    fn name(h: &str, out: &mut String) {
-        if let Some(name_end) = h.bytes().position(|c| c == b':') {
-            let (name, rest) = h.split_at(name_end + 1);
-            *out += name;
-            // Space after header colon is stripped.
-            value(skip_whitespace(rest), out);
-        } else {
+    // One field per iteration: the name up to the colon, then the value.
+    // (Loops, not recursion: a frame per character overflows the stack on long headers.)
+    'fields: loop {
+        let Some(name_end) = h.bytes().position(|c| c == b':') else {
             // This should never happen.
-            *out += h;
+            r += h;
+            break;
+        };
+        let (name, rest) = h.split_at(name_end + 1);
+        r += name;
+        // Space after header colon is stripped.
+        h = rest.trim_start_matches([' ', '\t']);
+
+        loop {
+            match h.as_bytes() {
+                // Unfolding removes the CRLF only: the white space that follows it is reduced
+                // together with the white space around it.
+                [b'\r', b'\n', b' ' | b'\t', ..] => h = &h[2..],
+                // End of header.
+                [b'\r', b'\n', ..] => {
+                    r += "\r\n";
+                    h = &h[2..];
+                    continue 'fields;
+                }
+                // Sequential whitespace.
+                [b' ' | b'\t', b' ' | b'\t' | b'\r', ..] => h = &h[1..],
+                // All whitespace becomes spaces.
+                [b'\t', ..] => {
+                    r.push(' ');
+                    h = &h[1..];
+                }
+                [_, ..] => {
+                    let mut chars = h.chars();
+                    r.push(chars.next().unwrap());
+                    h = chars.as_str();
+                }
+                [] => break 'fields,
+            }
         }
     }
-
-    fn value(h: &str, out: &mut String) {
-        match h.as_bytes() {
-            // Continuation lines.
-            // Unfolding removes the CRLF only: the white space that follows it is reduced
-            // together with the white space around it.
-            [b'\r', b'\n', b' ' | b'\t', ..] => value(&h[2..], out),
-            // End of header.
-            [b'\r', b'\n', ..] => {
-                *out += "\r\n";
-                name(&h[2..], out);
-            }
-            // Sequential whitespace.
-            [b' ' | b'\t', b' ' | b'\t' | b'\r', ..] => value(&h[1..], out),
-            // All whitespace becomes spaces.
-            [b'\t', ..] => {
-                out.push(' ');
-                value(&h[1..], out);
-            }
-            [_, ..] => {
-                let mut chars = h.chars();
-                out.push(chars.next().unwrap());
-                value(chars.as_str(), out);
-            }
-            [] => {}
-        }
-    }
-
-    name(headers, &mut r);
 
     r
 }
